@@ -339,6 +339,15 @@ CORPUS.append(
      "tasks": [{"tid": 100, "recs": [(EXIT, 1, BASE + 0x1300, 1310), (ENTRY, 1, BASE + 0x1100, 1400),
                                      (ENTRY, 2, BASE + 0x1200, 1500), (LOST, 0, 1, 0), (EXIT, 2, BASE + 0x1200, 1800),
                                      (EXIT, 1, BASE + 0x1100, 1900), (EXIT, 0, BASE + 0x1000, 2000)]}]})
+CORPUS.append(
+    # seed C08-5 / fixes 434cc50, 29f6519: --diff OTHER with functions faster, slower, unchanged and missing
+    {"kind": "forest", "max_stack": 1024, "tags": ["corpus:diff-pair"],
+     "syms": [(0x1000 + 0x100 * i, 0x80, "T", n) for i, n in enumerate(["main", "alpha", "beta", "gamma", "delta", "eps"])],
+     "fns": [(BASE + 0x1000 + 0x100 * i, n) for i, n in enumerate(["main", "alpha", "beta", "gamma", "delta", "eps"])],
+     "tasks": [{"tid": 100, "forest": [[0, 1000, 63000, [[1, 2000, 12000, []], [2, 13000, 33000, []], [3, 34000, 44000, []],
+                                                          [4, 45000, 50000, []], [5, 51000, 52000, []]]]]}],
+     "other_tasks": [{"tid": 100, "forest": [[0, 1000, 50000, [[1, 2000, 20000, []], [2, 21000, 25000, []], [3, 26000, 33000, []],
+                                                                [4, 34000, 39000, []]]]]}]})
 WITNESS_LOST_INHERITED = "corpus:lost-in-inherited-data"
 WITNESS_LOST_WRAP = "corpus:lost-after-inherited-wrap"
 
@@ -359,8 +368,16 @@ def corpus_cases():
             if t.get("cut"):
                 recs = recs[:t["cut"]]
             tasks.append({"tid": t["tid"], "recs": recs, "truth": truth_of_prefix(recs)})
-        out.append({"idx": i, "kind": c["kind"], "max_stack": c["max_stack"], "syms": c["syms"], "fns": c["fns"],
-                    "tasks": tasks, "tags": c["tags"]})
+        case = {"idx": i, "kind": c["kind"], "max_stack": c["max_stack"], "syms": c["syms"], "fns": c["fns"],
+                "tasks": tasks, "tags": c["tags"]}
+        if c.get("other_tasks"):
+            ot = []
+            for t in c["other_tasks"]:
+                recs = flat_recs([Call.from_json(j) for j in t["forest"]], fns)
+                ot.append({"tid": t["tid"], "recs": recs, "truth": truth_of_prefix(recs)})
+            case["other"] = {"idx": -1, "kind": "forest", "max_stack": c["max_stack"], "syms": c["syms"], "fns": c["fns"],
+                             "tasks": ot, "tags": ["other:corpus"]}
+        out.append(case)
     return out
 
 
@@ -545,7 +562,7 @@ def q_cell(c):
 
 PRE = """From Coq Require Import NArith ZArith List Bool Floats.
 Import ListNotations.
-Require Import UV.C08.Model UV.C08.Stdv.
+Require Import UV.C08.Model UV.C08.Stdv UV.C08.DiffSort.
 Local Open Scope N_scope.
 Definition E := mkrec ENTRY. Definition X := mkrec EXIT. Definition L := mkrec LOST.
 Definition nd nm call ts tr ta tmi tma ss sr sa smi sma :=
@@ -593,7 +610,7 @@ Definition prop_table t := match i_truth t with Some tts => ok_table (c_names (t
 Definition prop_sorted t := forallb (fun p => ok_sorted (fst p) (i_tbl t) (snd p)) (i_sorts t).
 Record ecase := mke { ec : case; e_tbl : list node; e_runs : list (avg_mode * option (list skey) * option (list fld) * list line);
                       e_task : list (cell * cell * N); e_truth : option (list ttrace); e_diff0 : list (list cell); e_clean : bool;
-                      e_other : option (case * list node * list dline) }.
+                      e_other : option (case * list node * list dline * list (bool * dpolicy * N * list key * list N * list (N * list (option Z)))) }.
 Definition e_model_ok t := forallb (fun r => let '(m, s, f, out) := r in lines_eqb (stdout_model (report_keys m s f) (report_fields m f) (report (ec t))) out) (e_runs t).
 Definition e_prop_ok t := negb (e_clean t) || forallb (fun r => let '(m, s, f, out) := r in ok_stdout (report_keys m s f) (report_fields m f) (e_tbl t) out) (e_runs t).
 Definition e_task_model t := existsb (existsb is_lost) (c_tasks (ec t)) || match e_task t with [] => true | l =>
@@ -605,9 +622,30 @@ Definition e_task_prop t := match e_task t, e_truth t with
                             (combine l tts) end.
 Definition e_diff_prop t := forallb (forallb (fun c => match c with None => true | _ => false end)) (e_diff0 t).
 Definition e_diff2_model t := match e_other t with None => true
-   | Some (c2, _, out) => diff_stdout_agrees (report (ec t)) (report c2) out end.
+   | Some (c2, _, out, _) => diff_stdout_agrees (report (ec t)) (report c2) out end.
 Definition e_diff2_prop t := match e_other t with None => true
-   | Some (_, tbl2, out) => ok_diff_stdout (e_tbl t) tbl2 out && nonincreasing (map (fun l => absdiff_of (e_tbl t) tbl2 (fst l)) out) end.
+   | Some (_, tbl2, out, _) => ok_diff_stdout (e_tbl t) tbl2 out && nonincreasing (map (fun l => absdiff_of (e_tbl t) tbl2 (fst l)) out) end.
+(* row order of --diff OTHER under every policy / sort column / key list, and the printed percentages *)
+Definition drow (base pair : list node) (nm : N) : node * node :=
+  (match find_node base nm with Some n => n | None => zero_node nm end,
+   match find_node pair nm with Some n => n | None => zero_node 0 end).
+Definition e_dorder_model t := match e_other t with None => true
+   | Some (c2, _, _, runs) =>
+       forallb (fun r => let '(swap, pol, col, ks, order, _) := r in
+                         let b := if swap : bool then report c2 else report (ec t) in
+                         let p := if swap : bool then report (ec t) else report c2 in
+                         list_eqb (map (fun bp => n_name (fst bp)) (diff_order pol col ks b p)) order) runs end.
+Definition e_dorder_prop t := match e_other t with None => true
+   | Some (_, tbl2, _, runs) =>
+       forallb (fun r => let '(swap, pol, col, ks, order, pcts) := r in
+                         let b := if swap : bool then tbl2 else e_tbl t in
+                         let p := if swap : bool then e_tbl t else tbl2 in
+                         sorted_by (cmp_d pol col ks) (map (drow b p) order)
+                         && list_eqb (sort_names order) (sort_names (map (fun bp => n_name (fst bp)) (diff_pairs b p)))
+                         && forallb (fun x => let '(nm, cs) := x in let '(bn, pn) := drow b p nm in
+                                      match cs with
+                                      | [c1; c2] => ok_dpct (sum (n_total bn)) (sum (n_total pn)) c1 && ok_dpct (sum (n_self bn)) (sum (n_self pn)) c2
+                                      | _ => false end) pcts) runs end.
 (* the stdv columns: raw doubles of the node table, row orders for the keys total_stdv / self_stdv, printed "%9.2f%%" *)
 Record scase := mks { sc : case; s_order : list nat; s_truth : option (list ttrace);
                       s_raw : list (N * float * float); s_fsorts : list (bool * list N);
@@ -687,6 +725,9 @@ def e2e_option_sets(rng):
     sets.append((["-f", "+" + ",".join(extra)], "AVG_NONE", None, ["total", "self", "call"] + extra))
     sets.append((["-f", "all"], "AVG_NONE", None, FIELDS))
     sets.append((["-f", "none"], "AVG_NONE", None, []))
+    # a key given twice is the key given once (fixed 7113223: it made the command loop for ever)
+    k2 = rng.choice(KEYS)
+    sets.append((["-s", "%s,%s" % (k2, k2)], "AVG_NONE", [k2, k2], None))
     # with -f the --avg-* option is ignored (a warning only)
     which = rng.choice(["total", "self"])
     fs = rng.sample(FIELDS, rng.randrange(1, 4))
@@ -720,6 +761,111 @@ def diff_text_is_zero(txt):
     return True
 
 
+def make_other(ctx, case):
+    """a second data set of the same program for --diff: the same call forests re-timed so that some functions are
+    faster, some slower and some unchanged, the calls of one function removed (a row only one side has); sometimes
+    a fresh set of forests"""
+    rng = ctx.rng
+    if rng.random() < 0.3 or any(t["truth"] is None or len(t["truth"]) > 2 for t in case["tasks"]):
+        return gen_case(ctx, -1, program=(case["syms"], case["fns"]), kind="forest")
+    addrs = sorted({a for a, _ in case["fns"]})
+    factor = {a: rng.choice((0.5, 0.8, 1, 1, 1, 1.25, 2)) for a in addrs}
+    gone = rng.choice(addrs) if rng.random() < 0.5 and len(addrs) > 2 else None
+    tasks = []
+    for t in case["tasks"]:
+        done, opened = t["truth"][0], t["truth"][1]
+        clock = [None]
+        out = []
+
+        def go(c, d):
+            a, t0, t1, kids = c
+            if a == gone:
+                return
+            start = clock[0]
+            out.append((ENTRY, d, a, clock[0]))
+            prev = t0
+            for k in kids:
+                clock[0] += int((k[1] - prev) * factor[a])
+                go(k, d + 1)
+                prev = k[2]
+            clock[0] += int((t1 - prev) * factor[a])
+            out.append((EXIT, d, a, clock[0]))
+        prev = None
+        for c in done:
+            if clock[0] is None:
+                clock[0] = c[1]
+            else:
+                clock[0] += c[1] - prev
+            go(c, 0)
+            prev = c[2]
+        # the open tail is dropped in the other data set (its calls are then "completed calls only")
+        recs = out or [(ENTRY, 0, addrs[0], 2000), (EXIT, 0, addrs[0], 2100)]
+        tasks.append({"tid": t["tid"], "recs": recs, "truth": truth_of_prefix(recs)})
+    return {"idx": -1, "kind": "forest", "max_stack": case["max_stack"], "syms": case["syms"], "fns": case["fns"],
+            "tasks": tasks, "tags": ["other:retimed"] + (["other:function-removed"] if gone else [])}
+
+
+DIFF_KEYS = ["total", "total_avg", "total_min", "total_max", "self", "self_avg", "self_min", "self_max", "call", "func"]
+
+
+def diff_combos(rng, percent_ok):
+    """(abs, percent, full, sort column, keys, swap base and other)"""
+    out = []
+    for absolute in (True, False):
+        for percent in ((False, True) if percent_ok else (False,)):
+            col = 2
+            ks = rng.sample(DIFF_KEYS, 2) if rng.random() < 0.5 else [rng.choice(DIFF_KEYS[:9])]
+            if rng.random() < 0.15:
+                ks = ks + [ks[0]]                     # a repeated key changes nothing
+            out.append((absolute, percent, rng.random() < 0.3, col, ks, rng.random() < 0.5))
+    for col in (0, 1):
+        out.append((rng.random() < 0.5, False, True, col, [rng.choice(DIFF_KEYS[:9])], rng.random() < 0.5))
+    out.append((True, percent_ok, False, 2, ["total"], False))          # the percent policy with its default key
+    return out
+
+
+PCT_RE = re.compile(r"^\s*([+-])(\d+)\.(\d\d)%$")
+
+
+def run_diff_orders(ctx, objdir, d, d2, num, percent_ok):
+    """-> Coq list of (swap, abs, percent, column, keys, names in printed order, printed percentages)"""
+    runs = []
+    for absolute, percent, full, col, ks, swap in diff_combos(ctx.rng, percent_ok):
+        pol = ",".join(["abs" if absolute else "no-abs", "percent" if percent else "no-percent", "full" if full else "compact"])
+        bdir, pdir = (d2, d) if swap else (d, d2)
+        argv = ["--diff", pdir, "--diff-policy", pol, "--sort-column", str(col), "-s", ",".join(ks)]
+        rc, out, err = uft(objdir, bdir, argv)
+        pr = parse_report(out, raw=True)
+        if rc != 0 or pr is None:
+            ctx.violation("uftrace report %s failed (rc=%d)" % (" ".join(argv), rc), {"argv": argv, "stderr": err[-600:]}, True)
+            continue
+        names = [num.get(name, 0) for cells, name in pr[1]]
+        pcts = []
+        if percent and not full:          # compact percent: Total and Self as percentages
+            for cells, name in pr[1]:
+                vals = []
+                for c in cells[:2]:
+                    m = PCT_RE.match(c)
+                    if c.strip() == "N/A":
+                        vals.append("None")
+                    elif m:
+                        vals.append("(Some (%s%d)%%Z)" % ("-" if m.group(1) == "-" else "", int(m.group(2)) * 100 + int(m.group(3))))
+                    else:
+                        vals.append("(Some 123456789%Z)")
+                pcts.append("(%d, %s)" % (num.get(name, 0), q_list(vals)))
+        runs.append("(%s, mkdp %s %s, %d, %s, %s, %s)" % (coq.coq_bool(swap), coq.coq_bool(absolute), coq.coq_bool(percent), col,
+                                                        q_list([q_key(k) for k in ks]), q_list(map(str, names)), q_list(pcts)))
+        ctx.tag("e2e:--diff-other %s col%d" % (pol, col))
+    return q_list(runs)
+
+
+def uft(objdir, d, args, timeout=30):
+    """`uftrace report` under `timeout -s KILL`: a report that loops for ever (a sort key given twice did, and
+    ignored SIGTERM) is killed and reported as rc 137 instead of being left behind"""
+    exe = os.path.join(objdir, "uftrace")
+    return sh(["timeout", "-s", "KILL", str(timeout), exe, "report", "--no-pager", "-d", d] + list(args), timeout=timeout + 10)
+
+
 def nm_of(case, a):
     rel = a - BASE
     for sa, sz, _, n in case["syms"]:
@@ -745,7 +891,7 @@ def run_e2e(ctx, objdir, case, d, res, amap, num, exe2=None):
     """returns Coq term of the ecase or None"""
     runs = []
     for argv, mode, ks, fs in e2e_option_sets(ctx.rng):
-        rc, out, err = datadir.uftrace(objdir, "report", d, argv)
+        rc, out, err = uft(objdir, d, argv)
         pr = parse_report(out)
         if argv == ["-f", "none"] and rc == 0:          # no columns at all: one function name per line
             pr = (["Function"], [([], l.strip()) for l in out.splitlines() if l.strip()])
@@ -765,7 +911,7 @@ def run_e2e(ctx, objdir, case, d, res, amap, num, exe2=None):
     # --task (LOST-free tasks only: the model of report_task covers those)
     task_lines = []
     if case["kind"] in ("forest", "marked", "suffix"):
-        rc, out, err = datadir.uftrace(objdir, "report", d, ["--task", "-s", "tid"])
+        rc, out, err = uft(objdir, d, ["--task", "-s", "tid"])
         pr = parse_report(out)
         if rc == 0 and pr:
             by_tid = {}
@@ -781,7 +927,7 @@ def run_e2e(ctx, objdir, case, d, res, amap, num, exe2=None):
             ctx.tag("e2e:--task")
     # --diff against itself: every difference must be printed as zero
     diff0 = []
-    rc, out, err = datadir.uftrace(objdir, "report", d, ["--diff", d])
+    rc, out, err = uft(objdir, d, ["--diff", d])
     pr = parse_report(out)
     if rc == 0 and pr:
         for cells, name in pr[1]:
@@ -792,7 +938,7 @@ def run_e2e(ctx, objdir, case, d, res, amap, num, exe2=None):
     # ... under every diff policy, field selection and avg mode
     for extra in (["--diff-policy", "full"], ["--diff-policy", "percent"], ["--diff-policy", "full,percent"],
                   ["--diff-policy", "no-abs", "-s", "self"], ["-f", "all"], ["--avg-total"], ["--avg-self", "--diff-policy", "full"]):
-        rc, out, err = datadir.uftrace(objdir, "report", d, ["--diff", d] + extra)
+        rc, out, err = uft(objdir, d, ["--diff", d] + extra)
         pr = parse_report(out, raw=True)
         if rc != 0 or pr is None:
             if res["nodes"]:
@@ -805,7 +951,7 @@ def run_e2e(ctx, objdir, case, d, res, amap, num, exe2=None):
     # --diff against another data set of the same program (model: pairing by name, order by |difference of Total|)
     other = "None"
     if case["kind"] == "forest" and exe2:
-        case2 = case.get("other") or gen_case(ctx, -1, program=(case["syms"], case["fns"]), kind="forest")
+        case2 = case.get("other") or make_other(ctx, case)
         case["other"] = case2
         d2 = d + ".other"
         write_case(case2, d2)
@@ -813,14 +959,19 @@ def run_e2e(ctx, objdir, case, d, res, amap, num, exe2=None):
         # both directories must use one name numbering: only when the other one needs no new name
         _, num2, anames2 = name_table(case2)
         if res2["ok"] and set(num2) <= set(num):
-            rc, out, err = datadir.uftrace(objdir, "report", d, ["--diff", d2])
+            rc, out, err = uft(objdir, d, ["--diff", d2])
             pr = parse_report(out)
             if rc == 0 and pr:
                 dl = []
                 for cells, name in pr[1]:
                     dl.append("(%d, %s)" % (num.get(name, 0), q_list([q_dcell(c) for c in cells])))
                 amap2n = {a: num[n2] for a, n2 in anames2.items()}
-                other = "Some (%s, %s, %s)" % (q_case(case2, amap2n), q_list([q_node(n, num) for n in res2["nodes"]]), q_list(dl))
+                scale1 = not any(tg.startswith("scale") for tg in case["tags"])
+                orders = run_diff_orders(ctx, objdir, d, d2, num, scale1)
+                other = "Some (%s, %s, %s, %s)" % (q_case(case2, amap2n), q_list([q_node(n, num) for n in res2["nodes"]]), q_list(dl), orders)
+                for tg in case2["tags"]:
+                    if tg.startswith("other:"):
+                        ctx.tag(tg)
                 ctx.tag("e2e:--diff-other")
         shutil.rmtree(d2, ignore_errors=True)
     # LOST markers: the figures of the open calls are whatever the code makes of them (see the report); the
@@ -883,8 +1034,10 @@ def common_meta(ctx):
         "but not derived: theorem C08_merge_irrelevant shows the report is the same for every interleaving",
         "the Size column and the key `size` are judged in props/c08.py (a symbol's size is no figure of the trace; the "
         "Coq model has no size); "
-        "--diff is exercised with the default policy/key only; rows of equal |difference| are compared as a set; the "
-        "sign of a time difference is judged (minus = decrease)",
+        "--diff OTHER: row order modelled and judged for every policy / sort column / key list (percentages as exact "
+        "fractions: the percent runs use data below 2^26 ns where the code's double comparison is the same order); "
+        "printed cells modelled for the default policy, judged for the percent policy; the sign of a time difference "
+        "is judged (minus = decrease)",
         "LOST markers with whole calls dropped (kind `marked`) are judged by the checkers against the forest of the "
         "surviving records; LOST markers with unbalanced drops, EXIT at stack 0 and max_stack overflow are compared "
         "with the model only; data "
@@ -897,7 +1050,7 @@ def common_meta(ctx):
 
 
 def setup(ctx):
-    coq.prove(ctx, "C08", extra_files=["C08/Stdv"])
+    coq.prove(ctx, "C08", extra_files=["C08/Stdv", "C08/DiffSort"])
     objdir = build.get_build("plain", ctx.log)
     exe = os.path.join(ctx.scratch, "c08_harness")
     build.cc([os.path.join(os.path.dirname(__file__), "../harness/c/c08_harness.c"), build.uf_archive(objdir)],
@@ -931,7 +1084,7 @@ def q_scase(case, res, amap, num, printed):
 def size_e2e(ctx, objdir, case, d):
     """the Size column and -s size: Size = size of the symbol the row is named after (0 without a symbol), rows
     in descending Size order (judged here: a symbol's size is not a figure of the trace, the Coq model has no size)"""
-    rc, out, err = datadir.uftrace(objdir, "report", d, ["-f", "size,call", "-s", "size,func"])
+    rc, out, err = uft(objdir, d, ["-f", "size,call", "-s", "size,func"])
     pr = parse_report(out)
     if rc != 0 or pr is None:
         return
@@ -957,7 +1110,7 @@ def stdv_e2e(ctx, objdir, d):
     """`--avg-total -s stdv` / `--avg-self -s stdv`: the printed stdv column, in printed order"""
     out_ = []
     for tot, arg in ((True, "--avg-total"), (False, "--avg-self")):
-        rc, out, err = datadir.uftrace(objdir, "report", d, [arg, "-s", "stdv"])
+        rc, out, err = uft(objdir, d, [arg, "-s", "stdv"])
         pr = parse_report(out)
         if rc != 0 or pr is None:
             continue
@@ -1036,6 +1189,8 @@ def evaluate(ctx, terms, eterms):
               ("v_diff", "bad_indices e_diff_prop ecases 0"),
               ("m_diff2", "bad_indices e_diff2_model ecases 0"),
               ("v_diff2", "bad_indices e_diff2_prop ecases 0"),
+              ("m_dorder", "bad_indices e_dorder_model ecases 0"),
+              ("v_dorder", "bad_indices e_dorder_prop ecases 0"),
               ("m_stdv", "bad_indices s_raw_ok scases 0"),
               ("m_stdv_sort", "bad_indices s_sort_ok scases 0"),
               ("m_stdv_print", "bad_indices s_print_ok scases 0"),
@@ -1056,6 +1211,8 @@ WHAT = {
     "v_task": "`uftrace report --task`: a task's total is not the summed duration of its top-level calls",
     "v_diff": "`uftrace report --diff` of a data set against itself reports a difference",
     "v_diff2": "`uftrace report --diff`: a printed difference is not (other - base) of the two node tables",
+    "v_dorder": "`uftrace report --diff OTHER`: rows do not follow the requested key under the given diff policy / sort "
+                "column, a row is missing, or a printed percentage is not (other - base) / base",
     "v_stdv": "total.stdv / self.stdv of a node is not the relative standard deviation (sigma/mean*100) of its invocations",
     "v_stdv_sort": "rows sorted with -s total_stdv / self_stdv are not in descending order of that figure",
     "v_stdv_print": "`uftrace report --avg-total/--avg-self`: the printed stdv is not the relative standard deviation, or the "
@@ -1069,6 +1226,7 @@ MODEL = {
     "m_stdout": "`uftrace report` stdout differs from the model's stdout_model",
     "m_task": "`uftrace report --task` differs from the model's task_line",
     "m_diff2": "`uftrace report --diff OTHER` differs from the model's diff_stdout",
+    "m_dorder": "row order of `uftrace report --diff OTHER --diff-policy ... --sort-column ... -s ...` differs from the model's diff_order",
     "m_stdv": "total.stdv / self.stdv (doubles) differ bit-for-bit from the model's report_stdv",
     "m_stdv_sort": "row order for the keys total_stdv / self_stdv differs from the model's sort_f",
     "m_stdv_print": "printed stdv column (%9.2f) or its row order differs from the model",
@@ -1084,14 +1242,14 @@ def verdict(ctx, res, kept, ekept):
                    "(cases %s)" % res["gen_truth"][:5])
     found = False
     for lab, what in WHAT.items():
-        src = ekept if lab in ("v_stdout", "v_task", "v_diff", "v_diff2") else kept
+        src = ekept if lab in ("v_stdout", "v_task", "v_diff", "v_diff2", "v_dorder") else kept
         # report the smallest failing cases (selection instead of shrinking: the generator makes many small ones)
         for i in sorted(res[lab], key=lambda i: sum(len(t["recs"]) for t in src[i]["tasks"]))[:2]:
             found = True
             ctx.violation("C08 violated: " + what, {"check": lab, "case": case_json(src[i]), "impl": src[i].get("impl")}, True)
     nm = 0
     for lab, what in MODEL.items():
-        src = ekept if lab in ("m_stdout", "m_task", "m_diff2") else kept
+        src = ekept if lab in ("m_stdout", "m_task", "m_diff2", "m_dorder") else kept
         nm += len(res[lab])
         if res[lab] and not found:
             i = min(res[lab], key=lambda i: sum(len(t["recs"]) for t in src[i]["tasks"]))
